@@ -38,6 +38,18 @@ pub struct Findings {
     pub findings: Vec<Finding>,
 }
 
+/// Removes replay files left by earlier runs of this property's check.
+pub fn clear_replays(prop: &str) {
+    let dir = format!("{}/replays", VERIF_DIR);
+    if let Ok(rd) = std::fs::read_dir(&dir) {
+        for e in rd.flatten() {
+            if e.file_name().to_string_lossy().starts_with(&format!("{}-", prop)) {
+                let _ = std::fs::remove_file(e.path());
+            }
+        }
+    }
+}
+
 pub fn load_findings() -> Findings {
     let p = format!("{}/known_findings.json", VERIF_DIR);
     match std::fs::read_to_string(&p) {
@@ -287,7 +299,9 @@ pub fn check_witnesses(prop: &str, findings: &Findings, replay_sub: &str) -> (Ve
     let results: Vec<(i32, String)> = handles.into_iter().map(|h| h.join().expect("witness thread")).collect();
     for (f, (code, out)) in selected.into_iter().zip(results.into_iter()) {
         let path = format!("{}/{}", VERIF_DIR, f.witness);
-        let reproduced = code == 1 && out.contains("REPRODUCED");
+        // a replay process killed by a signal (abort on a refused allocation, stack overflow) reproduces a
+        // violation of "without panicking or aborting"
+        let reproduced = (code == 1 && out.contains("REPRODUCED")) || code == -1;
         report.push(json!({"id": f.id, "status": f.status, "witness": f.witness, "reproduced": reproduced}));
         match (f.status.as_str(), reproduced) {
             ("known", true) => lines.push(format!("KNOWN-FINDING: property={} {} [{}] witness={}", prop, f.what, f.id, f.witness)),
@@ -352,6 +366,7 @@ pub fn run_hist_check(prop: &str, tier: &str, seed: u64, workers: u64, runs_over
     let total = runs_override.unwrap_or(tr.runs);
     println!("VERIF_SEED={} property={} tier={} runs={} workers={}", seed, prop, tier, total, workers);
 
+    clear_replays(prop);
     let (kf_lines, mut violations, witness_report) = check_witnesses(prop, &findings, "replay");
     for l in &kf_lines {
         println!("{}", l);
@@ -568,6 +583,7 @@ pub fn run_c09_check(tier: &str, seed: u64, workers: u64, runs_override: Option<
     let quick = tier != "thorough";
     let total = runs_override.unwrap_or(if quick { 12_000 } else { 400_000 });
     println!("VERIF_SEED={} property={} tier={} worlds={} workers={}", seed, prop, tier, total, workers);
+    clear_replays(prop);
     let (kf_lines, mut violations, witness_report) = check_witnesses(prop, &findings, "replay-c09");
     for l in &kf_lines {
         println!("{}", l);
@@ -791,6 +807,7 @@ pub fn run_c10_check(tier: &str, seed: u64, workers: u64, buffers_override: Opti
     let buffers = buffers_override.unwrap_or(if quick { 16 } else { 400 });
     let n_sampled: u64 = if quick { 400 } else { 5000 };
     println!("VERIF_SEED={} property={} tier={} buffers={} workers={}", seed, prop, tier, buffers, workers);
+    clear_replays(prop);
     let (kf_lines, mut violations, witness_report) = check_witnesses(prop, &findings, "replay-c10");
     for l in &kf_lines {
         println!("{}", l);
@@ -946,7 +963,7 @@ pub fn run_c10_check(tier: &str, seed: u64, workers: u64, buffers_override: Opti
         "coverage": {
             "evaluations": total.cases,
             "distinct_nontrivial": all_keys.len(),
-            "rule": "one evaluation = one (buffer, fault) case loaded into a non-empty engine (own rules, enabled tags) under catch_unwind and allocation accounting. For every sampled buffer the single-fault space is enumerated completely for: torn write (every prefix), bit rot (every single-bit flip), stale tail (new prefix + old image suffix at every cut), lost write, marker substitution (20 replacement markers at every msgpack value offset found by a walker); zeroed ranges, duplicated ranges, multi-byte corruption and free-form strings (every header variant, hostile length fields, deep nesting) are sampled. Non-trivial and distinct: distinct (fault kind, corrupt byte string) pairs that differ from the pristine buffer, counted over all workers.",
+            "rule": "one evaluation = one (buffer, fault) case loaded into a non-empty engine (own rules, enabled tags) under catch_unwind and allocation accounting. For every sampled buffer the single-fault space is enumerated completely for: torn write (every prefix), bit rot (every single-bit flip), stale tail (new prefix + old image suffix at every cut), lost write, marker substitution (20 replacement markers at every msgpack value offset found by a walker), string substitution (every stored string replaced by each of 27 degenerate/hostile strings, re-framed as valid msgpack) and JSON mutation (every stored JSON text with arrays emptied, keys removed, values nulled); zeroed ranges, duplicated ranges, multi-byte corruption and free-form strings (every header variant, hostile length fields, deep nesting) are sampled. Non-trivial and distinct: distinct (fault kind, corrupt byte string) pairs that differ from the pristine buffer, counted over all workers.",
             "samples": samples,
             "exhaustive": true,
             "exhaustive_scope": format!("per sampled buffer, kinds {:?} are enumerated completely; buffers and the other kinds are sampled", EXHAUSTIVE_KINDS),
@@ -1035,6 +1052,7 @@ pub fn run_c19_check(tier: &str, seed: u64, workers: u64, runs_override: Option<
     println!("VERIF_SEED={} property={} tier={} schedules={} differential_runs={} workers={}", seed, prop, tier, total, diff_runs, workers);
     let mut violations: Vec<(String, String)> = vec![];
     let mut harness_error = false;
+    clear_replays(prop);
     let replays_dir = format!("{}/replays", VERIF_DIR);
     let _ = std::fs::create_dir_all(&replays_dir);
 
